@@ -242,6 +242,15 @@ func newCtx(ck *Check, tier string, seed uint64, shard, shards int) *Ctx {
 	}
 }
 
+// NewProbeCtx returns a context that is not attached to a worker process
+// (used by the native fuzz stage and by tests).
+func NewProbeCtx(prop string, seed uint64) *Ctx {
+	c := newCtx(&Check{ID: prop}, "thorough", seed, 0, 1)
+	c.phase = "probe"
+	c.R = NewRng(seed)
+	return c
+}
+
 func (c *Ctx) runCase(ck *Check, pi int, idx uint64) {
 	ph := &ck.Phases[pi]
 	c.phase = ph.Name
